@@ -227,6 +227,38 @@ class Gen:
         if a.kind == 'f' and kind_of(e.v0) == 'f' and not a.all(lambda v: v > 0): return None
         return self.apply(op, {}, [a, e])
 
+    POW_INT = [2, 3, 4, 4, 5, 6, 6, 8, -1, -2, -3, -4]
+    POW_FRAC = [.5, .25, .125, .375, .75, 1.5, 2.5, -.5, -1.5, .0625, 1.25]
+
+    def g_powchain(self):
+        """composition of 2-3 powers / roots / squares / reciprocals on one real operand that (mostly) takes both signs: whatever the
+        implementation rewrites (f**p)**q to has to keep NumPy's value wherever NumPy's value is finite — an even inner power makes the
+        outer fractional power finite at points where f < 0.  Steps whose NumPy value is nan / inf are dropped by `apply`."""
+        rng = self.rng
+        a = self.operand('f', flavor=rng.choice(['any', 'nz', 'nz', 'nz', 'pos']))
+        if a is None: return None
+        n = a; last = None; prev = None; nsteps = 0
+        neg = not a.all(lambda v: v >= 0)
+        for step in range(rng.randint(2, 3)):
+            if n.depth > 3: break
+            val = None
+            kind = rng.choice(['int', 'int', 'int', 'frac', 'unary'] if last is None else ['int', 'frac', 'frac', 'frac', 'unary'])
+            if kind == 'unary':
+                m = self.apply(rng.choice(['sqrt', 'square', 'reciprocal', 'absolute']), {}, [n])
+            else:
+                val = rng.choice(self.POW_INT if kind == 'int' else self.POW_FRAC)
+                if kind == 'int' and rng.random() < .3: val = float(val)
+                e = self.fresh((), kind_of(val), styles=['scalar', 'scalar', 'const'], values=val)
+                m = self.apply(rng.choice(['power', 'op**']), {}, [n, e])
+            if m is not None:
+                n = last = m; nsteps += 1
+                if prev is not None and val is not None and neg and float(prev) == int(prev) and int(prev) % 2 == 0 and float(val) != int(val):
+                    # the family of rewrites (f**p)**q -> |f|**(pq): even inner power, fractional outer power, base negative somewhere
+                    self.events.append(('powchain-even-inner-fractional-outer-on-negative-base:product-%s' % ('integer' if float(prev * val) == int(prev * val) else 'fractional'), 'powchain', {}))
+                prev = val if val is not None else (2 if m.op == 'square' else .5 if m.op == 'sqrt' else -1 if m.op == 'reciprocal' else None)
+        self.events.append(('powchain-steps-%d' % nsteps, 'powchain', {}))
+        return last
+
     def g_unary(self):
         rng = self.rng
         op = self.choose(sorted(UN))
@@ -726,7 +758,7 @@ class Gen:
         self.events.append(('meta-ok' if ok else 'meta-wrong', 'meta:' + what, dict(op='meta', P={'what': what}, args=[a.id], got=repr(got), want=repr(want))))
         return None
 
-    FAMILIES = [('binary', 20), ('unary', 10), ('power', 3), ('reduce', 12), ('getitem', 14), ('take', 5), ('compress', 2), ('reshape', 8), ('transpose', 7),
+    FAMILIES = [('binary', 20), ('unary', 10), ('power', 3), ('powchain', 3), ('reduce', 12), ('getitem', 14), ('take', 5), ('compress', 2), ('reshape', 8), ('transpose', 7),
                 ('broadcast', 4), ('concat', 8), ('diag', 4), ('einsum', 7), ('dot', 8), ('cross', 2), ('norm', 3), ('linalg', 3), ('choose', 3), ('search', 4), ('misc', 4)]
 
     def step(self):
